@@ -152,6 +152,31 @@ fn build_pipeline(v: &Value) -> Pipeline {
         }
         stages.push(e);
     }
+    if v["tree"].is_array() {
+        // an explicit composition tree: leaf = stage index, node = [left, right]
+        enum E {
+            X(Exec),
+            P(Pipeline),
+        }
+        fn build(t: &Value, st: &mut Vec<Option<Exec>>) -> E {
+            if let Some(i) = t.as_u64() {
+                return E::X(st[i as usize].take().unwrap());
+            }
+            let l = build(&t[0], st);
+            let r = build(&t[1], st);
+            match (l, r) {
+                (E::X(a), E::X(b)) => E::P(a | b),
+                (E::P(a), E::X(b)) => E::P(a | b),
+                (E::P(a), E::P(b)) => E::P(a | b),
+                (E::X(_), E::P(_)) => panic!("Exec | Pipeline is not part of the API"),
+            }
+        }
+        let mut st: Vec<Option<Exec>> = stages.into_iter().map(Some).collect();
+        return match build(&v["tree"], &mut st) {
+            E::P(p) => p,
+            E::X(_) => panic!("a pipeline needs two commands"),
+        };
+    }
     let shape = v["shape"].as_str().unwrap_or("left");
     let mut it = stages.into_iter();
     match shape {
